@@ -167,6 +167,7 @@ def make(e, progs, job):
             ops.append({'op': 'model_prefix_scan', 'model': 'm'})
         elif job['kind'] == 'header':
             hb = [m.eval(x.t, model_completion=True).as_long() for x in st.get('hdr', [])]
+            ops.append({'op': 'model_read_chunked', 'model': 'm'})      # genuine header through readers that deliver short reads
             ops.append({'op': 'model_header', 'model': 'm', 'header': hb})
         else:
             ops.append({'op': 'model_faults', 'model': 'm'})
@@ -208,6 +209,11 @@ def confirm(sc, replay):
     elif kind == 'prefix':
         bad = r.get('bad', [])
     elif kind == 'header':
+        ch = [x for op, x in zip(sc['ops'], res) if op['op'] == 'model_read_chunked']
+        if not r.get('differs') and ch and ch[0].get('bad'):
+            bad.append('genuine header is accepted (short reads): ' + str(ch[0]['bad'][0]))
+        if not r.get('differs') and r.get('read') is not True:
+            bad.append('genuine header is accepted')
         if r.get('differs') and (r.get('read') is not False or r.get('read_slice') is not False):
             bad.append('foreign header is rejected')
     else:
